@@ -3,7 +3,7 @@
 # Silent rc 0 per module = every declaration was accepted again by a fresh kernel instance. Generated modules are included.
 cd /verif/lean || exit 2
 fail=0
-for m in $(ls DynasmVerif/Props/*.lean DynasmVerif/Proofs/*.lean | sed 's#/#.#g; s#\.lean$##') DynasmVerif.Generated.A64Dyn DynasmVerif.Generated.RvDyn DynasmVerif.Generated.RvLi DynasmVerif.Generated.RegDyn DynasmVerif.Generated.C14Inline; do
+for m in $(ls DynasmVerif/Props/*.lean DynasmVerif/Proofs/*.lean | sed 's#/#.#g; s#\.lean$##') DynasmVerif.Generated.A64Dyn DynasmVerif.Generated.RvDyn DynasmVerif.Generated.RvLi DynasmVerif.Generated.RegDyn DynasmVerif.Generated.C14Inline DynasmVerif.Generated.RelocCode DynasmVerif.Generated.PatchCode DynasmVerif.Generated.ImmCode DynasmVerif.Generated.A64Static DynasmVerif.Generated.RvStatic; do
   [ -f ".lake/build/lib/lean/$(echo $m | tr . /).olean" ] || { echo "$m: not built (run ./check first)"; continue; }
   if timeout 1800 lake env leanchecker "$m" > /tmp/leancheck.$$ 2>&1; then echo "$m: ok"; else echo "$m: FAILED"; tail -5 /tmp/leancheck.$$; fail=1; fi
 done
